@@ -75,7 +75,7 @@ theorem validate_frame (c : Chan) (n info : Nat) (sv : SigFact) (pk : Bool) :
     (validate c n info sv pk).c.slot = c.slot ∧
     (validate c n info sv pk).out.secret = none ∧ (validate c n info sv pk).out.signed = none := by
   unfold validate fail
-  dsimp only
+  try dsimp only
   repeat' split
   all_goals simp
 
